@@ -65,7 +65,8 @@ func verifC02Subst() {
 	copy(exts, o.exts)
 	o.exts = exts
 	keys := []Key{k.key()}
-	kind := vInt(0, 7)
+	kind := vInt(0, 11)
+	var rec []byte
 	switch kind {
 	case 0: // other config id
 		id := vByte()
@@ -99,8 +100,21 @@ func verifC02Subst() {
 		e := vBytes(2)
 		vAssume(e[0] != o.exts[2].data[0] || e[1] != o.exts[2].data[1])
 		o.exts[2] = vExt{51, e}
+	case 8: // bytes appended after the extension block, inside the handshake message (lengths consistent)
+		rec = vRecord(22, 0x0301, vHandshake(vCat(o.body(), vBytes(vInt(1, 2)))))
+	case 9: // bytes appended after the handshake message, inside the record
+		rec = vRecord(22, 0x0301, vCat(vHandshake(o.body()), vBytes(vInt(1, 2))))
+	case 10: // an extension inserted (padding, GREASE or unknown type) at any position
+		ins := []vExt{{21, vBytes(vInt(0, 2))}, {0x0a0a, nil}, {0x1234, vBytes(1)}}[vInt(0, 2)]
+		at := vInt(0, len(o.exts))
+		o.exts = append(append(append([]vExt{}, o.exts[:at]...), ins), o.exts[at:]...)
+	case 11: // a byte appended inside the ECH extension, after the payload
+		o.exts[3] = vExt{0xfe0d, vCat(o.exts[3].data, vBytes(1))}
 	}
-	c, err := NewConn(context.Background(), newVTransport(o.record()), WithKeys(keys))
+	if rec == nil {
+		rec = o.record()
+	}
+	c, err := NewConn(context.Background(), newVTransport(rec), WithKeys(keys))
 	vReach("ran")
 	vAssert(err != nil || !c.ECHAccepted(), "a substituted field never leads to acceptance")
 }
